@@ -28,6 +28,17 @@ class TcpDevice:
         self.srv.bind(("127.0.0.1", 0))
         self.srv.listen(8)
         self.port = self.srv.getsockname()[1]
+        from . import transport
+        transport.REAL_TCP_PORTS.add(self.port)
+        import ledger.hsm2dongle_tcp as ht
+        prev = ht.getDongle
+
+        def tcp_dongle(host=None, port=None, debug=False, *a, **k):
+            if port in transport.REAL_TCP_PORTS:
+                import ledgerblue.commTCP as commTCP
+                return commTCP.getDongle(host, port, debug)
+            return prev(host, port, debug, *a, **k)
+        ht.getDongle = tcp_dongle
         self.closed = False
         self.thread = threading.Thread(target=self._accept, daemon=True)
         self.thread.start()
